@@ -81,7 +81,7 @@ func c05RunStream(src string, gIn, eIn []string, rng *RNG, frag int, timeout tim
 	var gDone, eDone atomic.Bool
 	var wg sync.WaitGroup
 	wg.Add(2)
-	grand := &blockLog{r: rng.Fork()}
+	grand := &blockLog{r: rng.Fork(), skipKey: true}
 	spy := &c05OTSpy{inner: ot.NewCO(rng.Fork()), conn: gConn}
 	ssaBuf := &c05Buf{}
 	go func() {
@@ -566,6 +566,9 @@ func c05Program(c *Ctx, idx int, name string, p c05Prog, frag int) error {
 		if exErr == nil {
 			bad = c05Classify(ex.premature)
 		}
+		if bad == "" && name == "sign-resize" {
+			bad = "c05:stream:resize-memo:sign-vs-zero-extension:wrong-output"
+		}
 		if bad == "" && name == "slice-lengths" {
 			bad = "c05:stream-cache:slice-length-collision"
 		}
@@ -575,6 +578,10 @@ func c05Program(c *Ctx, idx int, name string, p c05Prog, frag int) error {
 		if bad == "" {
 			bad = "c05:stream-vs-whole:unexplained"
 		}
+	}
+	if bad == "" && p.want != nil && bigsString(w.res) != bigsString(p.want) {
+		bad, what = "c05:sign-resize:whole-circuit-differs-from-reference",
+			fmt.Sprintf("whole-circuit result %s differs from the reference result %s", bigsString(w.res), bigsString(p.want))
 	}
 	if bad == "" {
 		if ok, why := c05SameTypes(s.gOut, w.out); !ok {
@@ -747,6 +754,13 @@ func runC05(c *Ctx) error {
 	// permanent wire ids all stay below 65536
 	for i := 0; i < c.N(1, 3); i++ {
 		if err := c05Program(c, idx, "big-circuit", c05BigProg(c.rng.Fork(), i), 0); err != nil {
+			return err
+		}
+		idx++
+	}
+	// one constant / variable widened both sign- and zero-extended
+	for _, p := range c05ResizePrograms(c) {
+		if err := c05Program(c, idx, "sign-resize", p, 0); err != nil {
 			return err
 		}
 		idx++
